@@ -146,7 +146,7 @@ def pattern_from(rng, d, var_prob=0.4, drop_prob=0.3, mutate_prob=0.05):
 SPECIALS = ["x y", "a&b", "k=v", "q?r", "50%", "1+1", "say \"hi\"", "it's", "é✓ü", "a/b", "back\\slash", "tab\there",
             "%41", "a+b c", "semi;colon", "#frag", "{brace}", "line1\nline2", "?x", "<tag>", "a,b", "[0]", "~", "null", "true", "123"]
 IDS = ["f1", "f2", "f3", "r1", "r2", "id with space", "a&b=c", "q?x", "100%", "a+b", "ünï✓", "sl/ash", "semi;c", "x#y", "%2F"]
-IDS_JSON_UNSAFE = ["quo\"te", "back\\s"]
+IDS_JSON_UNSAFE = ["quo\"te", "back\\s", "ctl\x01x", "bell\x07", "vt\x0bx", "tag\U000e0001g"]   # need JSON escapes that Go's %q does not produce (no raw DEL: json.dumps leaves it unescaped and YAML forbids it raw)
 LOCS = ["loc", "loc with space", "l&o=c?%+é/x", "Lö✓", "a+b", "50%25", "x#y;z"]
 PREFIXES = ["", "/api", "/v1.0/api", "/v1.0", "/1/api", "/v2.1.3/api", "/0.9", "/v3"]
 JSCODES = ["1+2", "'a'+'b'", "({k: 1, s: 'x y'})", "[1,2,3]", "'q\"uote&=?%+é/'", "null", "true", "1/2 > 0"]
